@@ -52,6 +52,8 @@ class Env:
         self.upper = {}        # name -> B (inclusive upper bound)
         self.nonzero = set()   # canonical text of expressions known to be non-zero
         self.wname = set()     # names that hold W (digits)
+        self.mutated = set()   # locals modified after their initialisation
+        self.counters = set()  # locals initialised to 0 whose only modifications are ++ (loop counters)
 
 
 def is_w(e, env):
@@ -86,6 +88,9 @@ def interval(e, env, depth=0):
         return interval(e["a"][0], env, depth + 1)
     if k == "ref":
         n = e["n"]
+        if n in env.mutated:
+            # a local that is stepped or re-assigned is not bounded by its initialiser
+            return (B(0, 1) if n in env.nonzero else B(0, 0)), env.upper.get(n)
         if n in env.locals:
             lo, hi = interval(env.locals[n], env, depth + 1)
             if n in env.nonzero and lo is not None and lo.a == 0 and lo.b == 0:
@@ -106,6 +111,19 @@ def interval(e, env, depth=0):
         al, ah = interval(e["l"], env, depth + 1)
         bl, bh = interval(e["r"], env, depth + 1)
         return _add(al, bl), _add(ah, bh)
+    if k == "call" and astx.callee(e)[0] == "min" and len(e["a"]) == 2:
+        al, ah = interval(e["a"][0], env, depth + 1)
+        bl, bh = interval(e["a"][1], env, depth + 1)
+        his = [h for h in (ah, bh) if h is not None]
+        hi = None
+        if len(his) == 2:
+            hi = his[0] if all(his[0].at(w) <= his[1].at(w) for w in (8, 16, 32, 64)) else (
+                his[1] if all(his[1].at(w) <= his[0].at(w) for w in (8, 16, 32, 64)) else None)
+            if hi is None:
+                hi = his[0]       # either is an upper bound of the minimum
+        elif his:
+            hi = his[0]
+        return B(0, 0), hi
     if k == "call" and astx.callee(e)[0] in ("bit_width", "countl_zero", "countr_zero", "popcount", "countl_one", "countr_one"):
         return B(0, 0), None        # bounded by W, but callers' preconditions usually make it smaller: not decided
     return None, None
@@ -166,6 +184,11 @@ def learn(cond, taken, env):
             lo, hi = interval(r, env)
             if hi is not None:
                 env.upper[l["n"]] = _sub(hi, B(0, 1)) if op == "<" else hi
+        if op == "!=" and l is not None and l.get("k") == "ref" and l["n"] in env.counters:
+            # `i != n` holds inside the body of a loop whose counter starts at 0 and only steps by one: i < n there
+            lo, hi = interval(r, env)
+            if hi is not None:
+                env.upper[l["n"]] = _sub(hi, B(0, 1))
         for a, b in ((l, r), (r, l)):
             if op == "!=" and astx.int_value(b) == 0 and a is not None:
                 env.nonzero.add(astx.show(a, 60))
@@ -191,8 +214,32 @@ def check(chk, db, prefixes, rule="SHIFT", floor=8):
         tparams |= {"UInt", "WordType", "T"} & set(p["ty"].replace("const ", "").strip() for p in f["params"])
         construct = astx.sig(f)
         judged = {}
+        counters = set()
+        for st in astx.walk_stmts(f["body"]):
+            if st.get("k") == "decl":
+                for v in st["vars"]:
+                    i0 = astx.strip_casts(v.get("init")) if v.get("init") is not None else None
+                    while i0 is not None and i0.get("k") in ("construct", "initlist") and len(i0.get("a", [])) == 1:
+                        i0 = astx.strip_casts(i0["a"][0])
+                    if "other" not in v and i0 is not None and (astx.int_value(i0) == 0 or (i0.get("k") in ("construct", "initlist") and not i0.get("a"))):
+                        counters.add(v["n"])
+        mutated = set()
+        for x in astx.all_exprs(f, into_lambdas=True):
+            if x.get("k") == "bin" and x["op"].endswith("=") and x["op"] not in ("==", "!=", "<=", ">="):
+                t = astx.strip_casts(x["l"])
+                if t is not None and t.get("k") == "ref":
+                    counters.discard(t["n"])
+                    mutated.add(t["n"])
+            if x.get("k") == "un" and x["op"] in ("--", "++"):
+                t = astx.strip_casts(x["e"])
+                if t is not None and t.get("k") == "ref":
+                    mutated.add(t["n"])
+                    if x["op"] == "--":
+                        counters.discard(t["n"])
         for p in SP.paths(f["body"]):
             env = Env(tparams)
+            env.counters = counters
+            env.mutated = mutated
             for ev in p:
                 if ev[0] == "cond":
                     # judge shifts inside the condition before learning from it
